@@ -263,6 +263,52 @@ theorem simplify_equality_sound (c : Cmp → Cmp) (hc : SubFlipOK c) (ai si : Bo
 example : simplifyEquality Generated.C06.inverseCmp true true (.cmp .lt (.sub (.int 5) (.icol 0 false)) (.int 2))
     = .cmp .gt (.icol 0 false) (.sub (.int 5) (.int 2)) := by decide
 
+/-- TEXT LEVEL (complete decision table, decided exhaustively): wherever the guard list of simplify_parens — regenerated
+    from the source on this run — drops the parentheses of a child of kind `c` under a parent of kind `p`, the printed SQL
+    parses back with the same meaning in every operand slot (`reparseSafe`, the abstracted precedence ladder); no
+    exception.  (BETWEEN parents are excluded: rewrite_between, earlier in the pinned pipeline, removes them before
+    simplify_parens runs.)  Dropping a guard atom such as `parent_is_predicate` breaks this. -/
+theorem generated_parens_guard_reparse_safe :
+    (parentKinds.all fun p => childKinds.all fun c => [0, 1, 2].all fun pos =>
+      !Generated.C06.parensGuard c p || reparseSafe p pos c) = true := by decide
+
+/-- … as a ∀-statement -/
+theorem simplify_parens_text_safe (p c : PKind) (pos : Nat) (hp : p ∈ parentKinds) (hc : c ∈ childKinds) (hpos : pos ∈ [0, 1, 2])
+    (h : Generated.C06.parensGuard c p = true) : reparseSafe p pos c = true := by
+  have := generated_parens_guard_reparse_safe
+  simp only [List.all_eq_true] at this
+  have h3 := this p hp c hc pos hpos
+  simpa [h] using h3
+
+/-- why the repaired guard atoms are needed: the guard list as it was before the fix (explicit snapshot `oldParensGuard`)
+    dropped the parentheses in slots that are unsafe, and exactly the `knownUnsafeParens` slots were the unsafe ones -/
+theorem parens_known_unsafe_witness :
+    oldParensGuard .not .add = true ∧ reparseSafe .add 0 .not = false ∧
+    oldParensGuard .inList .neg = true ∧ reparseSafe .neg 0 .inList = false ∧
+    (parentKinds.all fun p => childKinds.all fun c => [0, 1, 2].all fun pos =>
+      !oldParensGuard c p || reparseSafe p pos c || knownUnsafeParens p c) = true := by decide
+
+def pkOfPKind : PKind → List PK
+  | .none => [.none] | .func => [.coalesce, .case, .iff] | .paren => [.paren] | .or => [.or] | .and => [.and] | .not => [.not]
+  | .eq => [.cmp] | .rel => [.cmp] | .is => [.is] | .between => [.between] | .inList => [.inList]
+  | .add => [.add] | .sub => [.sub] | .mul => [.mul] | .neg => [.neg] | .atom => []
+
+def repOfPKind : PKind → List E
+  | .paren => [.paren (.icol 0 false)] | .or => [.or (.bcol 0 false) (.bcol 1 false)] | .and => [.and (.bcol 0 false) (.bcol 1 false)]
+  | .not => [.not (.bcol 0 false)] | .eq => [.cmp .eq (.icol 0 false) (.int 1), .cmp .neq (.icol 0 false) (.int 1)]
+  | .rel => [.cmp .lt (.icol 0 false) (.int 1), .cmp .gte (.icol 0 false) (.int 1)] | .is => [.is (.icol 0 false) .null]
+  | .between => [.between (.icol 0 false) (.int 1) (.int 2)] | .inList => [.inList (.icol 0 false) (.cons (.int 1) .nil)]
+  | .add => [.add (.icol 0 false) (.int 1)] | .sub => [.sub (.icol 0 false) (.int 1)] | .mul => [.mul (.icol 0 false) (.int 2)]
+  | .neg => [.neg (.icol 0 false)] | .atom => [.icol 0 false, .int 1, .bool true, .null]
+  | .func => [.coalesce (.cons (.icol 0 false) .nil), .case .nil .absent, .iff (.bcol 0 false) (.int 1) .absent]
+  | .none => []
+
+/-- the hand-written mirror `simplifyParens` and the regenerated guard list agree on every (parent kind, child kind)
+    (complete table over representative terms; BETWEEN parents included) -/
+theorem generated_parens_guard_matches_model :
+    ((PKind.between :: parentKinds).all fun p => childKinds.all fun c => (pkOfPKind p).all fun pk => (repOfPKind c).all fun e =>
+      (simplifyParens pk (.paren e) == e) == Generated.C06.parensGuard c p) = true := by decide
+
 /-- simplify_parens only ever drops a pair of parentheses -/
 theorem simplify_parens_sound (p : PK) (e : E) (env : Env) : eval env (simplifyParens p e) = eval env e := by
   unfold simplifyParens
